@@ -595,6 +595,78 @@ class World08(World):
         self.event("const_transient", n)
         return None
 
+    def op_stack_pressure(self, op, rng):
+        """Resource fault: hash / == / set membership evaluated with only r interpreter frames left, for EVERY r in
+        a window around exhaustion.  Each evaluation must either report the exhaustion (RecursionError) or give
+        the answer it gives on a shallow stack (V8): a value's hash and equality cannot depend on where on the
+        stack they are asked for."""
+        import code_data
+
+        C = code_data.Constant
+        pairs = []
+        env = {"__builtins__": {}, "frozenset": frozenset}
+        if op.get("exprs"):
+            vals = []
+            for e in op["exprs"]:
+                try:
+                    vals.append((e, eval(compile(e, "<zoo>", "eval"), env)))
+                except Exception:
+                    continue
+            for i in range(len(vals)):
+                j = (i + 1) % len(vals)
+                pairs.append(("Constant[%s]" % const_kind(vals[i][1]), C(vals[i][1]), C(clone_leaf(vals[i][1])), C(vals[j][1]), vals[i][0]))
+        for i in op.get("in", []):
+            sl = self.slots[i]
+            other = sched._outcome(lambda: pickle.loads(pickle.dumps(sl.value, 2)))
+            if other[0] == "ok":
+                pairs.append(("CodeData", sl.value, other[1], other[1], "slot"))
+        depth = 0
+        f = sys._getframe()
+        while f is not None:
+            depth += 1
+            f = f.f_back
+        limit = sys.getrecursionlimit()
+        room = limit - depth
+        window = op.get("window", 70)
+        n = 0
+        for kind, x, twin, y, label in pairs:
+            thunk = lambda: (hash(x), x == twin, x == y, y == x, x in {twin}, len({x, twin, y}))  # noqa: E731
+            base = sched._outcome(thunk)
+            if base[0] != "ok":
+                continue  # ordinary checks report that
+
+            def rec(k):
+                if k <= 0:
+                    try:
+                        return ("ok", thunk())
+                    except RecursionError:
+                        return ("exhausted",)
+                return rec(k - 1)
+
+            for r in range(window, -3, -1):
+                fill = room - r - 3
+                if fill < 1:
+                    continue
+                try:
+                    got = rec(fill)
+                except RecursionError:
+                    got = ("exhausted",)
+                n += 1
+                if got[0] == "exhausted":
+                    self.probes["stack_pressure_reported_exhaustion"] = self.probes.get("stack_pressure_reported_exhaustion", 0) + 1
+                    continue
+                if got[1] != base[1]:
+                    names = ("hash", "eq-twin", "eq-other", "eq-other-reversed", "in-set", "set-size")
+                    diff = [nm for nm, a, b in zip(names, base[1], got[1]) if a != b]
+                    self.violate("V8-answer-depends-on-remaining-stack", kind, ",".join(diff), {"a": label, "frames_left": r, "shallow": list(base[1][1:]), "deep": list(got[1][1:])})
+                    return None
+        self.count("stack_pressure_evaluations", n)
+        self.count("fault_stack_pressure")
+        self.faults_fired += 1
+        self.api_ops += 1
+        self.event("stack_pressure", n)
+        return None
+
     def op_drop(self, op, rng):
         """Drop a pool member (and collect garbage): later values may reuse its addresses."""
         import gc
@@ -740,6 +812,11 @@ def run_c08(seed, tree, tier, known):
         w.execute({"op": "const_check", "exprs": ex + list(fam)}, rng)
         if w.stop:
             return w, cfg
+    if rng.chance(0.15):
+        fam = rng.choice(workload.CONFUSABLE_FAMILIES + workload.SAME_FAMILIES)
+        w.execute({"op": "stack_pressure", "exprs": [zoo_expr(rng)] + list(rng.sample(fam, min(len(fam), 3)))}, rng)
+        if w.stop:
+            return w, cfg
     # the program family
     comp_ops = []
     if cfg["twins"]:
@@ -839,6 +916,10 @@ def run_c08(seed, tree, tier, known):
                     w.count("fault_identity_loss_recompile")
         if new is not None and new.kind == "data":
             datas.append(new)
+        if steps == 2 and rng.chance(0.1) and not w.stop:
+            small = [d for d in datas if d.id in w.slots and d.meta.get("w", 0) <= 300]
+            if small:
+                w.execute({"op": "stack_pressure", "in": [rng.choice(small).id], "window": 120}, rng)
         if len(datas) > 3 and rng.chance(0.2) and not w.stop:
             victim = rng.choice(datas[1:])
             datas = [d for d in datas if d.id != victim.id]
